@@ -214,11 +214,55 @@ func extractC18() *lean {
 		})
 	}
 	l.def("clientConstructors", "List String", leanStrList(ctors), ctors)
+	var crs []string
+	for _, c := range ctors {
+		crs = append(crs, c[strings.Index(c, ":")+1:])
+	}
+	l.def("clientCheckRedirects", "List String", leanStrList(crs), crs)
 	var conds []string
 	for _, n := range sortedKeys(checkNames) {
 		conds = append(conds, ifConds(funcDecl(cl, n))...)
 	}
 	l.def("checkRedirectConds", "List String", leanStrList(conds), conds)
+	// const maxRedirects and WithRedirectCheck (does the wrapper keep the package policy?)
+	maxR := "none"
+	for _, d := range cl.Decls {
+		if gd, ok := d.(*ast.GenDecl); ok && gd.Tok == token.CONST {
+			for _, sp := range gd.Specs {
+				vs := sp.(*ast.ValueSpec)
+				for i, n := range vs.Names {
+					if n.Name == "maxRedirects" && i < len(vs.Values) {
+						if bl, ok := vs.Values[i].(*ast.BasicLit); ok && bl.Kind == token.INT {
+							maxR = "some " + bl.Value
+						}
+					}
+				}
+			}
+		}
+	}
+	l.def("maxRedirectsConst", "Option Nat", maxR, maxR)
+	var wrapper []string
+	if w := funcDecl(cl, "WithRedirectCheck"); w != nil {
+		ast.Inspect(w, func(n ast.Node) bool {
+			if fl, ok := n.(*ast.FuncLit); ok {
+				for _, st := range fl.Body.List {
+					switch x := st.(type) {
+					case *ast.IfStmt:
+						if as, ok := x.Init.(*ast.AssignStmt); ok && len(as.Rhs) == 1 {
+							wrapper = append(wrapper, "if-err:"+condString(as.Rhs[0]))
+						}
+					case *ast.ReturnStmt:
+						if len(x.Results) == 1 {
+							wrapper = append(wrapper, "return:"+condString(x.Results[0]))
+						}
+					}
+				}
+				return false
+			}
+			return true
+		})
+	}
+	l.def("withRedirectCheckBody", "List String", leanStrList(wrapper), wrapper)
 	// StrictHTTPClient.Do: the first-request scheme check
 	var doConds []string
 	for _, d := range cl.Decls {
